@@ -45,8 +45,8 @@ class C01(Property):
         "integration adapters are not placed nearer to the source than a delay adapter on one link (zero-length averaging interval, outside C12's domain)",
         "each pull-based component serves one consumer link here; fan-out of pull-based components is C20's subject (known finding F11)",
     )
-    cases = {"quick": 1500, "thorough": 40000}
-    min_nontrivial = {"quick": 400, "thorough": 5000}
+    cases = {"quick": 1500, "thorough": 120000}
+    min_nontrivial = {"quick": 400, "thorough": 20000}
 
     def gen(self, rnd, i, tier):
         cyc = "sufficient" if rnd.random() < 0.35 else None
